@@ -160,8 +160,8 @@ CLAIMED = {
              'definition in document order whose normalised label equals it; the map every inline parse uses is that of the whole document (two phases), with '
              'containers transparent to document order; definitions build no token. Model tied by X-doc (tree + Document.footnotes with order). Oracle: '
              'generated documents with definitions at every kind of block boundary and nesting, near-duplicate labels, vs the resolved href/title.',
-        note='Trusted: Coq kernel, extraction, parser model (correspondence-checked), translators, placement generator. The syntax of a definition is the '
-             'model of Footnote.read (tied by correspondence and C02), not specified independently.',
+        note='Trusted: Coq kernel, extraction, parser model (correspondence-checked), translators, placement generator. The scanners of a definition\'s label, destination and title are translated from block_token.py on every run and proved equal to the model\'s (C07_definition_scanners_are_the_source); how match_reference and Footnote.read combine them is the '
+             'hand-written model (tied by correspondence and C02), not specified independently.',
         technique='Coq proof (induction over definition lists) + extracted-model correspondence + generator oracle',
         design='5/C07'),
     'C13': dict(
